@@ -61,6 +61,7 @@ def gen(rng, tier):
         keys = [u for u in range(n) if rng.random() < 0.6]
         m = [[u, x[u] if rng.random() < 0.8 else rng.randrange(k)] for u in keys]
         case = {"n": n, "k": k, "fs": fs, "kinds": kinds, "x": x, "m": m,
+                "enc": rng.choice(["list", "list", "npints", "boollist", "boolarr", "uint8", "int16", "uint64"]),
                 "unit_names": rng.choice(["int", "int", "str", "tuple"]),
                 "cand_names": rng.choice(["int", "int", "reversed", "falsy_last", "bool_rev", "str"])}
         if rows >= 2 and rng.random() < 0.5:
@@ -131,7 +132,15 @@ def run_impl(c):
     x = c["x"]
     qa = p.query(np.array(x, dtype=int))
     assert qa.dtype == np.bool_ and qa.ndim == 1, (qa.dtype, qa.shape)
-    ql = p.query(list(x))
+    # the "list" observation uses one of several encodings of the same assignment: a list of ints, of numpy ints, and -- for two
+    # candidates in their natural order -- a list of Python bools / a bool array; unsigned and narrow integer arrays
+    enc = c.get("enc", "list")
+    if enc in ("boollist", "boolarr") and not (c["k"] == 2 and c.get("cand_names", "int") == "int"):
+        enc = "list"
+    xs_enc = {"list": lambda: list(x), "npints": lambda: [np.int64(v) for v in x], "boollist": lambda: [bool(v) for v in x],
+              "boolarr": lambda: np.array(x, dtype=bool), "uint8": lambda: np.array(x, dtype=np.uint8),
+              "int16": lambda: np.array(x, dtype=np.int16), "uint64": lambda: np.array(x, dtype=np.uint64)}[enc]()
+    ql = p.query(xs_enc)
     qm = p.query(dict((un[u], cn[v]) for u, v in c["m"]))
     qi = p.query(np.array(x, dtype=int), dtype=int)
     assert np.issubdtype(qi.dtype, np.integer)
@@ -194,6 +203,7 @@ def distribution(cases, outs):
     return {"rows": dict(sorted(rows.items())), "widths_DxC": {"%dx%d" % k: v for k, v in sorted(widths.items())},
             "cases_with_padding": padded, "exceptions": dict(exc), "wide_universe_cases": sum(1 for c in cases if c.get("wide")),
             "cases_with_in_place_edit_then_requery": sum(1 for c in cases if c.get("edit")),
+            "assignment_encodings": dict(Counter(c.get("enc", "list") for c in cases)),
             "malformed_assignments (wrong length / dimension; not a verdict)":
                 dict(Counter("%s:%s" % kv for o in outs if isinstance(o, dict) for kv in o.get("malformed", {}).items()))}
 
